@@ -1,7 +1,7 @@
 #!/bin/bash
 # setup_cmd: build the runner offline from files on disk only (engines are rebuilt by every check).
 set -eu
-cd /verif
+cd "$(cd "$(dirname "$0")" && pwd)"
 export GOFLAGS=-mod=mod GOPROXY=off GOSUMDB=off GOTOOLCHAIN=local CGO_ENABLED=1
 GO=/opt/veriftools/go1.26.8/bin/go
 [ -x "$GO" ] || GO=go1.26.8
